@@ -3,6 +3,8 @@ import PsVerif.Model.Timelock
 import PsVerif.Model.Route
 import PsVerif.Model.Premium
 import PsVerif.Model.Version
+import PsVerif.Model.Upgrade
+import PsVerif.Model.Wire
 /- line-protocol front end for the pure layer -/
 namespace PsVerif.Driver
 open PsVerif PsVerif.Model
@@ -71,6 +73,26 @@ def handlePure : List String → Option String
         | .err _ => pure "rejected"
         | .ok => pure (if payIterationLbtc p true h0 h2 then "pay" else "nopay")
     | .none => none
+  | "upgrade" :: stored :: states => do
+    -- stored: "absent" or hex string; states: state names ("-" = initial state)
+    let st : Option String ← (if stored == "absent" then some none else (unhexStr stored).map some)
+    let ss ← states.mapM fun n => Gen.St.ofName (if n == "-" then "" else n)
+    match safeUpgrade Gen.dbVersion st ss with
+    | .error _ => pure "err activeSwaps"
+    | .ok none => pure "ok absent"
+    | .ok (some v) => pure ("ok " ++ hexStr v)
+  | ["wire.classify", s] => do
+    match classifyType (← unhexStr s) with
+    | .parseError => pure "parseError"
+    | .notPeerswap => pure "notPeerswap"
+    | .peerswap t => pure s!"peerswap {t}"
+  | ["wire.route", len, s] => do
+    match routeMessage (← nat? len) (← unhexStr s) with
+    | .tooLarge => pure "tooLarge"
+    | .typeError => pure "typeError"
+    | .ignored => pure "ignored"
+    | .decode t => pure s!"decode {t}"
+  | ["wire.tohex", n] => do pure (toHex (← int? n))
   | ["scid.cln", s] => do pure (hexStr (clnStyle (← unhexStr s)))
   | ["scid.lnd", s] => do pure (hexStr (lndStyle (← unhexStr s)))
   | ["premium.compute", amt, ppm] => do pure (toString (ppmCompute (← nat? amt) (← int? ppm)))
